@@ -184,3 +184,7 @@ def run(ctx: Context) -> None:  # noqa: F811
 
     ctx.rep.rule('C12.R8', 'a request waiting for a stream slot is visible to the IDLE transition: it waits for a stream to end rather than fail (shared with C09.R8)')
     pending_visible_to_idle_transition(ctx, 'C12.R8')
+    from . import support as _support
+
+    ctx.rep.rule('C12.R9', 'async tree: every test / suspension / write sequence on a field of a task-shared object is one critical section of an async lock that all writers of the field hold')
+    _support.await_atomicity_census(ctx, 'C12.R9')
